@@ -49,6 +49,7 @@ type Options struct {
 	Overflow   bool            // math-int mode: obligations that int arithmetic stays within 64 bits
 	Bounded    string
 	Reveal     bool // opaque spec functions are expanded (used when proving the contracts that define them)
+	Prune      bool // path mode: ask the solver at each fork and drop sides it refutes
 	RevealOnly map[string]bool // if non-nil: only these opaque spec functions (by short name) are expanded
 	AppendDouble bool // bounded lemmas: deterministic capacity growth on reallocating appends
 	Paths      bool // path mode: fork at every symbolic branch, never merge (bounded lemmas)
@@ -86,6 +87,7 @@ type Exec struct {
 	ghostKeys  map[string]*ssa.Parameter // ghost variables live in State.Env under synthetic keys (merged like any value)
 	pathInline bool
 	pathSteps  int
+	pruneQueries, pruned int
 	specWF     []*Term // well-formedness facts of values loaded inside spec functions (see wfLoaded)
 	deadline   time.Time
 }
